@@ -61,6 +61,13 @@ type Enc struct {
 	dynResults map[string]Val // result of the (last) call through a function-typed parameter
 	entryLets  map[string]Val
 	ghostObjs  int
+	instDepth  int
+	specFuncs  map[*ssa.Function]string
+	indexTerms []indexTerm
+	pol        int // polarity of the formula being evaluated: +1 goal, -1 hypothesis, 0 unknown
+	goalSkolems []string
+	quantFacts []*quantFact
+	quantPats  []quantPat
 	unproved   []string
 	inQuant    int
 	invDepth   int
@@ -77,7 +84,7 @@ type Enc struct {
 func newEnc(w *World, fn *ssa.Function, fc *FuncContract) *Enc {
 	return &Enc{w: w, top: fn, fc: fc, ctr: map[string]int{}, entryHeaps: map[string]*Heap{}, heapKinds: map[string]Kind{},
 		lemmaDone: map[string]bool{}, strLits: map[string]string{}, fLits: map[string]string{}, siteCtr: map[string]int{},
-		usedTypeInvs: map[string]bool{}, usedContracts: map[string]bool{}, usedLib: map[string]bool{}, iters: map[*ssa.Range]*iterInfo{}}
+		usedTypeInvs: map[string]bool{}, specFuncs: map[*ssa.Function]string{}, usedContracts: map[string]bool{}, usedLib: map[string]bool{}, iters: map[*ssa.Range]*iterInfo{}}
 }
 
 func (e *Enc) emit(l string) { e.lines = append(e.lines, l) }
@@ -97,9 +104,14 @@ func (e *Enc) define(base, srt, term string) string {
 	if isAtom(term) {
 		return term
 	}
+	if e.inQuant > 0 {
+		return term // no hoisting out of a quantifier body: the term may mention the bound variable
+	}
 	e.ctr[base]++
 	n := fmt.Sprintf("%s!%d", base, e.ctr[base])
-	e.emit(fmt.Sprintf("(define-fun %s () %s %s)", n, srt, term))
+	// a constant with a defining equation (not a macro): stays atomic inside quantifier patterns
+	e.emit(fmt.Sprintf("(declare-const %s %s)", n, srt))
+	e.emit(fmt.Sprintf("(assert (= %s %s))", n, term))
 	return n
 }
 
@@ -167,8 +179,10 @@ func (e *Enc) oblige(kind, site string, pos token.Pos, goal string, props []stri
 		}
 	}
 	e.obls = append(e.obls, o)
-	// assume-after-assert
-	e.assume(goal)
+	// assume-after-assert (a statically failed obligation is not assumed: it would make everything after it vacuous)
+	if goal != "false" {
+		e.assume(goal)
+	}
 	return o
 }
 
@@ -500,4 +514,10 @@ func (e *Enc) globalAddr(g *ssa.Global) Val {
 	pt := g.Type().(*types.Pointer).Elem()
 	loc := &Loc{Base: fmt.Sprintf("%d", id), Path: "Global#" + g.Name(), Sh: shapeOf(pt)}
 	return Val{Sh: shapeOf(g.Type()), T: fmt.Sprintf("%d", id), Loc: loc}
+}
+
+type quantPat struct {
+	bv    string
+	pats  []string
+	names []string
 }
